@@ -20,7 +20,7 @@ fn applicable(s: Solver, f: Family) -> bool {
 fn main() {
     let ctx = Ctx::from_args("C09");
     ctx.level("exploration");
-    ctx.rule("E1: six families (1-D Laplacian, arrowhead SPD, symmetric indefinite dominant, nonsymmetric dominant with mixed-sign diagonal, upwind convection-diffusion, scattered dominant) x orders {1,2,3,5,8,13,21,34,60} (quick to 34) x 7 construction paths of the sparse matrix (3 triplet orders, entry-by-entry inserts, double transpose, overwrite + scale, explicitly stored zeros) x right-hand sides {A x*, 0, 1e6 A x*} x guesses {0, exact solution, fixed non-zero} x tol {1e-12,1e-8,1e-3} x solvers (CG on the SPD families; BiCG itol 1/2, BiCGSTAB, QMR on the strictly diagonally dominant ones), every combination. Oracle: Ok(k) with k <= 6n+30; ||x - x_direct||_inf <= 10 tol ||A^-1||_inf ||b||_2 + 100 cond eps ||x|| with x_direct and the inverse from an independent dense LU; exact guess and zero/zero start => Ok with finite x. Non-trivial: nonsymmetric systems, exact-guess starts, zero right-hand sides, orders >= 13.");
+    ctx.rule("E1: six families (1-D Laplacian, arrowhead SPD, symmetric indefinite dominant, nonsymmetric dominant with mixed-sign diagonal, upwind convection-diffusion, scattered dominant) x orders {1,2,3,5,8,13,21,34,60} (quick to 34) x 7 construction paths of the sparse matrix (3 triplet orders, entry-by-entry inserts, double transpose, overwrite + scale, explicitly stored zeros) x right-hand sides {A x*, 0, 1e6 A x*} x guesses {0, exact solution, fixed non-zero} x tol {1e-12,1e-8,1e-3} x solvers (CG on the SPD families; BiCG itol 1/2, BiCGSTAB, QMR on the strictly diagonally dominant ones), every combination. Oracle: Ok(k) with k <= 6n+30; ||x - x_direct||_inf <= 10 tol ||A^-1||_inf ||b||_2 + 100 cond eps ||x|| with x_direct and the inverse from an independent dense LU; exact guess and zero/zero start => Ok with finite x. Plus every symmetric strictly dominant matrix with positive diagonal (SPD) of order 4 over 3 letters (quick) / order 4 over 5, order 5 over 3, order 6 over 2 letters (thorough), each through one of the 7 construction paths, 3 rhs x 3 guesses x 2 tolerances, all five solvers. Non-trivial: nonsymmetric systems, exact-guess starts, zero right-hand sides, orders >= 13.");
     ctx.assume("all matrix and vector data are small dyadic rationals, so the exact guess has an exactly zero residual in f64");
     ctx.assume("the iteration bound 6n+30 and the accuracy slack are calibrated on the repaired tree (worst observed values are recorded)");
     ctx.threshold("iterations_over_cap", 1.0);
@@ -214,6 +214,75 @@ fn main() {
                                 }
                                 Ok(Err(e)) => acc.fail(idx, key(), e),
                                 Err(p) => acc.fail(idx, key(), format!("unexpected panic: {}", p)),
+                            }
+                        }
+                    }
+                }
+            },
+        );
+    }
+    // symmetric strictly dominant matrices with a positive diagonal (SPD), every off-diagonal pattern: all five solvers
+    for (n, letters) in if ctx.quick() { vec![(4usize, vec![0.0, 1.0, -0.5])] } else { vec![(4usize, vec![0.0, 1.0, -1.0, 0.5, -0.5]), (5usize, vec![0.0, 1.0, -0.5]), (6usize, vec![0.0, -1.0])] } {
+        let noff = n * (n - 1) / 2;
+        let l = letters.len() as u64;
+        ctx.lattice(
+            &format!("exhaustive SPD strictly dominant {}x{}: symmetric off-diagonals over {:?}, diagonal = row sum + 1; 3 rhs x 3 guesses x 2 tolerances x 5 solvers", n, n, letters),
+            pow(l, noff as u32),
+            |idx| format!("offdiag#{}", idx),
+            |idx, acc| {
+                let mut dg = vec![0usize; noff];
+                digits_uniform(idx, l, &mut dg);
+                let mut d = vec![vec![0.0f64; n]; n];
+                let mut k = 0;
+                for i in 0..n {
+                    for j in i + 1..n {
+                        d[i][j] = letters[dg[k]];
+                        d[j][i] = letters[dg[k]];
+                        k += 1;
+                    }
+                }
+                for i in 0..n {
+                    let s: f64 = (0..n).filter(|&j| j != i).map(|j| d[i][j].abs()).sum();
+                    d[i][i] = s + 1.0;
+                }
+                acc.nontriv("SPD lattice member");
+                let a = sparse_of(&d, (idx % 7) as usize);
+                let xs: Vec<f64> = [1.0, -0.5, 2.0, 0.25, -1.5, 3.0][..n].to_vec();
+                let kappa = cond_inf(&d);
+                let ainv = kappa / norm_inf_mat(&d);
+                for (ri, exact) in [xs.clone(), vec![0.0; n], xs.iter().map(|v| v * 1e6).collect::<Vec<f64>>()].iter().enumerate() {
+                    let b = matvec(&d, exact);
+                    let bn = if norm2(&b) == 0.0 { 1.0 } else { norm2(&b) };
+                    for (gi, x0) in [vec![0.0; n], exact.clone(), [0.5, -2.0, 1.0, 4.0, -0.125, 2.0][..n].to_vec()].iter().enumerate() {
+                        for &tol in [1e-12, 1e-6].iter() {
+                            for &s in SOLVERS.iter() {
+                                acc.hit("solver runs");
+                                let key = || format!("SPD {:?} A={:?} rhs#{} guess#{} tol={:e}", s, d, ri, gi, tol);
+                                let res = catch(|| -> Result<(f64, f64), String> {
+                                    let bv = Vector::create(b.clone());
+                                    let mut x = Vector::create(x0.clone());
+                                    let cap = iteration_cap(n);
+                                    let k = match run(s, &a, &bv, &mut x, cap, tol) {
+                                        Ok(k) => k,
+                                        Err(e) => return Err(format!("no success within {} iterations (Err({:e})); x = {:?}", cap, e, x.vec)),
+                                    };
+                                    ensure!(x.vec.iter().all(|v| v.is_finite()), "Ok({}) but x = {:?}", k, x.vec);
+                                    let err = (0..n).map(|i| (x[i] - exact[i]).abs()).fold(0.0, f64::max);
+                                    let bound = 10.0 * tol * ainv * bn + 100.0 * kappa * EPS * norm_inf(exact) + 1e-300;
+                                    ensure!(err <= bound, "Ok({}) but ||x - x*||_inf = {:e} > {:e}", k, err, bound);
+                                    if gi == 1 {
+                                        ensure!(k == 0, "exact guess but {} iterations were performed", k);
+                                    }
+                                    Ok((k as f64 / cap as f64, err / bound))
+                                });
+                                match res {
+                                    Ok(Ok((kk, eb))) => {
+                                        acc.worst("iterations_over_cap", kk, key);
+                                        acc.worst("error_over_bound", eb, key);
+                                    }
+                                    Ok(Err(e)) => acc.fail(idx, key(), e),
+                                    Err(p) => acc.fail(idx, key(), format!("unexpected panic: {}", p)),
+                                }
                             }
                         }
                     }
